@@ -442,7 +442,7 @@ def run_case(base, case, seed):
         build_root(base, case, seed)
         cset = make_cset(base, case)
         pre = snap_model(base)
-        t0 = int(time.time())
+        t0 = int(time.time()) - 2      # kernel timestamps use a coarse clock that may lag time.time()
         run = fsx.record(merge_fn(base, case, cset), base)
         post = snap_model(base)
     finally:
